@@ -8,7 +8,7 @@ cd /verif/coq || exit 2
 # Link files that load a float-decoding comparator (see tools/gen_all_v.py SEPARATE): re-checked on their own; the primitive
 # Int63 / PrimFloat declarations of Coq's standard library are listed by coqchk for them (kernel primitives, not axioms of
 # this development; Print Assumptions of every theorem in these files: Closed under the global context).
-for m in PV.C08.LinkTie; do
+for m in PV.C08.LinkTie2; do   # LinkTie2 requires LinkTie: one run re-checks both
 ( echo; echo "coqchk -silent -o -Q theories PV $m   ($(date -u +%Y-%m-%dT%H:%MZ))"; \
   timeout 7200 coqchk -silent -o -Q theories PV $m 2>&1 | grep -v "^\s*$" | sed -n '/CONTEXT SUMMARY/,$p' ) >> /verif/notes/coqchk_all.txt 2>&1
 done
